@@ -32,8 +32,14 @@ TRUSTED = L.TRUSTED_COMMON + [
     "equal draw sequences give equal samples: torch / torchvision / PIL determinism (observed bit for bit between the "
     "spied and the plain instance, not proved)",
     "DataLoader runtime (index-to-worker assignment, fork copies of the dataset): exercised by the thorough tier only",
+    "cross-launch comparison: python -m harness.c08 --launch-child in two fresh interpreters (PYTHONHASHSEED from the "
+    "case) builds the same stacks and serves the same indices; exception texts are dropped (they may hold addresses)",
 ]
 ASSUMPTIONS = [
+    "the ROOT dataset hands out a fresh object on every access (the toy root clones its tensors / builds a new PIL image "
+    "per request): an alias between two returned samples can then only come from state kept by a wrapper, which is "
+    "what 'sample i is a pure function of (data, config, seed, i)' excludes; a root that itself hands out aliases of "
+    "its storage is outside the claim (in-place consumers would corrupt it with or without seeded wrappers)",
     "wrapper stacks are trees: no transform instance is shared between two wrappers or two fields",
     "the other wrappers in the stack are deterministic (index remapping, label smoothing, deterministic transforms) or "
     "seeded themselves; an unseeded stochastic wrapper in the stack is outside the claim",
@@ -43,11 +49,20 @@ ASSUMPTIONS = [
     "NumPy generators give unrelated streams is NumPy's property",
 ]
 ALLOWED_AXIOMS = []
-RULE = ("stacks: seeded X/Y/Target/Source transform wrapper over every container / registered class as direct "
+RULE = ("every seeded wrapper class x {seed 0, seed 1} x {fused, unfused access modes} x {bare, below an in-place "
+        "consumer (X/Y/... transform wrapper around KDImageNorm / KDImageRangeNorm, inplace=True), below a multi-view "
+        "wrapper}, requests i,i,i,j,i; random "
+        "stacks: seeded X/Y/Target/Source transform wrapper over every container / registered class as direct "
         "transform plus random trees, KDMultiViewWrapper (1-3 configs), BYOL / minaug / MUGS multi-view and minaug-X "
         "wrappers on PIL data, KDMixWrapper, SemsegTransformWrapper; a second seeded layer and subset / shuffle / repeat "
-        "/ label-smoothing wrappers above and below; two instances, two global states, two access orders with "
-        "repeats; non-trivial = some request drew from its per-item generator and nothing raised; distinct by "
+        "/ label-smoothing wrappers above and below, in-place consumers and multi-view wrappers above (unfused path "
+        "of the mix wrapper), base seed 0 in ~15% of the layers; two instances, two global states, two access orders "
+        "with repeats and with the same index 1-3 times in a row; in 60% of the cases the harness overwrites every "
+        "tensor it was handed in place after each request (returned objects must not alias wrapper state); "
+        "thorough: DataLoader(num_workers 0..3) with explicit sampler orders (runs of equal indices), samples "
+        "canonicalised and overwritten inside the worker's collate_fn; one (quick) / two (thorough, ~140 stacks each) "
+        "cross-launch cases: the same seeded stacks and indices in two fresh interpreters with different "
+        "PYTHONHASHSEED plus the harness process itself; non-trivial = some request drew from its per-item generator and nothing raised; distinct by "
         "(stack signature, access-order shapes)")
 
 
@@ -67,6 +82,31 @@ def _info():
 SEMSEG_X_ONLY = ["KDAdditiveGaussianNoise", "KDRandomColorJitter", "KDRandomGrayscale", "KDRandomSolarize",
                  "KDRandomAdditiveGaussianNoise", "KDColorJitter"]
 DET_LEAVES = [{"c": "KDSolarize"}, {"c": "KDGrayscale"}]
+INPLACE_LEAVES = [{"c": "KDImageNorm"}, {"c": "KDImageRangeNorm"}]     # inplace=True is their default
+SEEDED_CLASSES = ["XTransformWrapper", "YTransformWrapper", "TargetTransformWrapper", "SourceTransformWrapper",
+                  "KDMultiViewWrapper", "KDMixWrapper", "SemsegTransformWrapper", "ByolMultiViewWrapper",
+                  "ImagenetMinaugMultiViewWrapper", "MUGSMultiViewWrapper", "ImagenetMinaugXTransformWrapper"]
+
+
+# seeded per-item code without cases of their own: the abstract base, and a deterministic pipeline (nothing to seed)
+NO_CASES = {"TransformWrapperBase", "ImagenetNoaugXTransformWrapper"}
+
+
+def unlisted_seeded_wrappers(info):
+    """fail closed: a sample wrapper class whose per-item code injects / draws from a per-item generator must be in
+    SEEDED_CLASSES (every such class gets seed-0 / repeated-index / in-place-consumer cases)"""
+    return [d["name"] for d in info["wrappers"]
+            if (d["inject"] or "LSeeded" in d["local"]) and d["name"] not in SEEDED_CLASSES and d["name"] not in NO_CASES]
+
+
+def pick_seed(rng):
+    """base seeds: 0 (falsy!) and small seeds often, otherwise anything up to 10^6"""
+    r = rng.random()
+    if r < 0.15:
+        return 0
+    if r < 0.2:
+        return rng.choice([1, 2])
+    return rng.randrange(0, 10 ** 6)
 
 
 def has_class(spec, name):
@@ -113,7 +153,7 @@ def gen_stack(rng, family=None, no_sched=False):
     S = rng.choice([16, 16, 8])
     N = rng.choice([6, 8, 10])
     family = family or rng.choice(["x", "x", "x", "mv", "mv", "pil", "pil", "mix", "mix", "semseg", "two"])
-    seed = lambda: rng.randrange(0, 10 ** 6)  # noqa
+    seed = lambda: pick_seed(rng)  # noqa
     layers = []
     n = N
     kind = "img"
@@ -164,7 +204,7 @@ def gen_stack(rng, family=None, no_sched=False):
                 ts.append({"c": "KDComposeTransform", "k": [{"c": "KDAdditiveGaussianNoise", "a": 0}]})
         layers.append({"w": "SemsegTransformWrapper", "ts": ts, "seed": seed()})
         # (no index layer above: with a fused operation in the stack ModeWrapper wants getitem_* on the top TYPE)
-        mode = rng.choice(["x semseg", "index x semseg", "x"])
+        mode = rng.choice(["x semseg", "index x semseg", "x", "semseg", "semseg x"])
     elif family == "mv":
         maybe_index()
         if rng.random() < 0.3:
@@ -184,9 +224,22 @@ def gen_stack(rng, family=None, no_sched=False):
             layers.append({"w": "XTransformWrapper", "t": t, "seed": seed()})
         layers.append({"w": "KDMixWrapper", "p": rng.choice([0.5, 0.8, 1.0]), "alpha": rng.choice([0.4, 0.8, 1.0]),
                        "seed": seed()})
-        if not below and rng.random() < 0.4:
+        above = rng.random()
+        mode = rng.choice(["x class", "x", "x", "class", "index x class", "class x"])
+        if not below and above < 0.3:
             layers.append({"w": "XTransformWrapper", "t": img_tree(rng, S, no_sched), "seed": seed()})
-        mode = rng.choice(["x class", "x", "class", "index x class"])
+        elif above < 0.55:
+            # an in-place consumer directly above the seeded mix wrapper (what it is handed must be fresh every time)
+            layers.append({"w": "XTransformWrapper", "t": rng.choice(INPLACE_LEAVES), "seed": None})
+        elif above < 0.75:
+            # multi-view above mix: only getitem_x exists up there, the mix wrapper is reached through its UNFUSED path
+            # (an UNSEEDED multi-view wrapper gets deterministic in-place views only: an unseeded stochastic wrapper in
+            # the stack is outside the claim)
+            mv_seed = rng.choice([None, seed()])
+            cfg = [[rng.choice([1, 2]), rng.choice(INPLACE_LEAVES + ([] if mv_seed is None else [img_tree(rng, S, no_sched)]))]
+                   for _ in range(rng.choice([1, 2]))]
+            layers.append({"w": "KDMultiViewWrapper", "cfg": cfg, "seed": mv_seed})
+            mode = rng.choice(["x", "index x"])
     else:
         maybe_index()
         w = rng.choice(["XTransformWrapper"] * 3 + ["YTransformWrapper", "TargetTransformWrapper", "SourceTransformWrapper"])
@@ -196,20 +249,35 @@ def gen_stack(rng, family=None, no_sched=False):
         if family == "two" or rng.random() < 0.25:
             maybe_index()
             layers.append({"w": "XTransformWrapper", "t": img_tree(rng, S, no_sched), "seed": seed()})
-        maybe_index()
         item = K.X_WRAPPERS[w]
+        if rng.random() < 0.25:
+            # in-place consumer of the item above the seeded wrapper(s)
+            layers.append({"w": w, "t": rng.choice(INPLACE_LEAVES), "seed": None})
+        maybe_index()
         mode = rng.choice([item, item + " class", "index " + item] + (["x y"] if item == "y" else []))
     return {"root": {"kind": kind, "N": N, "S": S}, "layers": layers, "mode": mode}
 
 
-def mk_case(rng, spec):
+def with_runs(rng, h):
+    """the same index several times IN A ROW (not only i, j, i)"""
+    out = []
+    for i in h:
+        out += [i] * rng.choice([1, 1, 1, 2, 3])
+    return out
+
+
+def mk_case(rng, spec, mut=None):
     n = K.stack_len(spec)
-    base = [rng.randrange(n) for _ in range(rng.choice([3, 4, 6]))]
-    ha = base + [rng.choice(base) for _ in range(rng.choice([1, 2, 4]))] + [rng.randrange(n) for _ in range(2)]
+    base = [rng.randrange(n) for _ in range(rng.choice([2, 3, 4]))]
+    ha = base + [rng.choice(base) for _ in range(rng.choice([1, 2, 3]))] + [rng.randrange(n) for _ in range(2)]
     rng.shuffle(ha)
-    hb = list(base) + [rng.choice(ha) for _ in range(rng.choice([0, 2, 5]))]
+    hb = list(base) + [rng.choice(ha) for _ in range(rng.choice([0, 2, 4]))]
     rng.shuffle(hb)
-    return {"kind": "stack", "spec": spec, "ha": ha, "hb": hb, "ga": rng.randrange(10 ** 6), "gb": rng.randrange(10 ** 6)}
+    # mut: after every request the harness overwrites the tensors it was handed IN PLACE (an in-place collate /
+    # training step); the next request must be unaffected
+    return {"kind": "stack", "spec": spec, "ha": with_runs(rng, ha), "hb": with_runs(rng, hb),
+            "ga": rng.randrange(10 ** 6), "gb": rng.randrange(10 ** 6),
+            "mut": (rng.random() < 0.6) if mut is None else mut}
 
 
 def directed_cases(rng, info):
@@ -240,7 +308,7 @@ def directed_cases(rng, info):
                 mode = "x class"
             out.append(mk_case(rng, {"root": {"kind": "img", "N": 8, "S": 16}, "layers": [lay], "mode": mode}))
     for c in L.IMG_SAFE:
-        if c in (L.FOREIGN, "KDSolarize", "KDGrayscale") or c not in names:
+        if c in L.DET_LEAVES or c not in names:
             continue
         a = rng.choice([i for i, (k_, _) in enumerate(L.REG[c]) if k_ == "img"])
         w = rng.choice(list(K.X_WRAPPERS))
@@ -251,6 +319,48 @@ def directed_cases(rng, info):
               "ImagenetMinaugXTransformWrapper"):
         out.append(mk_case(rng, {"root": {"kind": "pil", "N": 6, "S": 32},
                                  "layers": [{"w": w, "seed": rng.randrange(10 ** 6), "n": 2, "nloc": 2}], "mode": "x"}))
+    out += seeded_class_cases(rng)
+    return out
+
+
+def seeded_layer(rng, w, seed):
+    """one seeded layer of class w whose per-item code certainly draws -> (root kind, layer, access modes)"""
+    flip, crop = {"c": "KDRandomHorizontalFlip", "a": 0}, {"c": "KDRandomCrop", "a": 0}
+    if w in K.X_WRAPPERS:
+        item = K.X_WRAPPERS[w]
+        return "img", {"w": w, "t": {"c": "KDComposeTransform", "k": [crop, flip]}, "seed": seed}, [item, item + " class"]
+    if w == "KDMultiViewWrapper":
+        return "img", {"w": w, "cfg": [[2, crop], [1, {"c": "KDComposeTransform", "k": [flip, crop]}]], "seed": seed}, ["x", "x class"]
+    if w == "KDMixWrapper":
+        return "img", {"w": w, "p": 1.0, "alpha": 0.8, "seed": seed}, ["x class", "x", "class", "class x"]
+    if w == "SemsegTransformWrapper":
+        return "img", {"w": w, "ts": [{"c": "KDSemsegRandomHorizontalFlip", "a": 0}, {"c": "KDSemsegRandomCrop", "a": 0},
+                                      {"c": "KDAdditiveGaussianNoise", "a": 0}], "seed": seed}, ["x semseg", "x", "semseg"]
+    return "pil", {"w": w, "seed": seed, "n": 2, "nloc": 2}, ["x"]
+
+
+def seeded_class_cases(rng, classes=None):
+    """EVERY seeded wrapper class x {seed 0 (falsy), seed 1} x {fused, unfused access path} x {bare, under an in-place
+    consumer, under a multi-view wrapper}; histories ask for the same index several times in a row; the harness
+    overwrites what it was handed after every request"""
+    out = []
+    for w in classes or SEEDED_CLASSES:
+        for seed in (0, 1):
+            kind, lay, modes = seeded_layer(rng, w, seed)
+            root = {"kind": kind, "N": 6, "S": 32 if kind == "pil" else 16}
+            for mode in modes:
+                stacks = [[lay]]
+                if kind == "img" and (w in K.X_WRAPPERS or w == "KDMixWrapper" or (w == "SemsegTransformWrapper" and mode == "x")):
+                    cons = w if w in K.X_WRAPPERS else "XTransformWrapper"
+                    stacks.append([lay, {"w": cons, "t": rng.choice(INPLACE_LEAVES), "seed": None}])
+                if w == "KDMixWrapper" and mode == "x":
+                    stacks.append([lay, {"w": "KDMultiViewWrapper", "cfg": [[2, rng.choice(INPLACE_LEAVES)]], "seed": None}])
+                for layers in stacks:
+                    c = mk_case(rng, {"root": root, "layers": layers, "mode": mode}, mut=rng.random() < 0.7)
+                    i, j = rng.randrange(root["N"]), rng.randrange(root["N"])
+                    c["ha"] = [i, i, i, j, i]
+                    c["hb"] = [j, i, i, j, j]
+                    out.append(c)
     return out
 
 
@@ -258,8 +368,24 @@ def loader_case(rng):
     spec = gen_stack(rng, no_sched=True)
     if "index" not in spec["mode"].split(" "):
         spec["mode"] = "index " + spec["mode"]
-    return {"kind": "loader", "spec": spec, "bs": rng.choice([1, 2, 3]), "ga": rng.randrange(10 ** 6),
-            "shuffle": [rng.randrange(10 ** 6) for _ in range(4)]}
+    n = K.stack_len(spec)
+    # explicit sampler orders, one per worker count: every index, each one 1-3 times in a row
+    orders = []
+    for _ in range(4):
+        o = list(range(n))
+        rng.shuffle(o)
+        orders.append(with_runs(rng, o))
+    return {"kind": "loader", "spec": spec, "bs": rng.choice([1, 1, 2, 3]), "ga": rng.randrange(10 ** 6),
+            "orders": orders, "mut": rng.random() < 0.6}
+
+
+def launch_case(rng, n_random):
+    """the same seeded stacks asked for the same indices in two fresh interpreters (PYTHONHASHSEED different from each
+    other and from the harness's own 0): 'a function of (data, config, seed, i)' leaves no room for the launch"""
+    items = []
+    for c in seeded_class_cases(rng)[::3] + [mk_case(rng, gen_stack(rng)) for _ in range(n_random)]:
+        items.append({"spec": c["spec"], "ga": c["ga"], "idx": sorted(set(c["ha"]))[:4]})
+    return {"kind": "launch", "items": items, "hs": rng.sample(range(1, 4000), 2)}
 
 
 def gen_cases(rng, tier):
@@ -267,15 +393,19 @@ def gen_cases(rng, tier):
     out = []
     if info["errors"]:
         out.append({"kind": "translator", "errors": info["errors"]})
+    out += [{"kind": "unlisted", "cls": c} for c in unlisted_seeded_wrappers(info)]
     out += directed_cases(rng, info)
     n = 300 if tier == "quick" else 3000
     out += [mk_case(rng, gen_stack(rng)) for _ in range(n)]
     out += [loader_case(rng) for _ in range(0 if tier == "quick" else 60)]
+    out += [launch_case(rng, 10)] if tier == "quick" else [launch_case(rng, 120) for _ in range(2)]
     return out
 
 
 def search_cases(rng, tier):
     info = T.regenerate()
+    for c in seeded_class_cases(rng):
+        yield c
     for _ in range(3):
         for c in directed_cases(rng, info):
             yield c
@@ -284,6 +414,16 @@ def search_cases(rng, tier):
 
 
 def shrink(case):
+    if case.get("kind") == "launch":
+        items = case["items"]
+        if len(items) > 1:
+            h = len(items) // 2
+            yield {**case, "items": items[:h]}
+            yield {**case, "items": items[h:]}
+        elif len(items[0]["idx"]) > 1:
+            yield {**case, "items": [{**items[0], "idx": items[0]["idx"][:1]}]}
+            yield {**case, "items": [{**items[0], "idx": items[0]["idx"][1:]}]}
+        return
     if case.get("kind") != "stack":
         return
     spec = case["spec"]
@@ -306,6 +446,8 @@ def shrink(case):
         if "ts" in l and len(l["ts"]) > 1:
             for j in range(len(l["ts"])):
                 yield {**case, "spec": {**spec, "layers": layers[:i] + [{**l, "ts": l["ts"][:j] + l["ts"][j + 1:]}] + layers[i + 1:]}}
+    if case.get("mut"):
+        yield {**case, "mut": False}
     if len(case["ha"]) > 1:
         yield {**case, "ha": case["ha"][:-1]}
         yield {**case, "ha": case["ha"][1:]}
@@ -317,11 +459,37 @@ def shrink(case):
 # ---------------------------------------------------------------------------
 # running the real code
 # ---------------------------------------------------------------------------
-def _get(ds, i):
+def _overwrite(v):
+    """overwrite every tensor / array of a returned sample IN PLACE (after it was canonicalised)"""
+    import numpy as np
+    import torch
+    if torch.is_tensor(v):
+        try:
+            v.fill_(-123)
+        except Exception:  # noqa  (expanded views refuse in-place writes)
+            pass
+    elif isinstance(v, np.ndarray):
+        try:
+            v.fill(-123)
+        except Exception:  # noqa
+            pass
+    elif isinstance(v, (list, tuple)):
+        for x in v:
+            _overwrite(x)
+    elif isinstance(v, dict):
+        for x in v.values():
+            _overwrite(x)
+
+
+def _get(ds, i, mut=False):
     try:
-        return L.canon(ds[i])
+        v = ds[i]
+        c = L.canon(v)
     except Exception as e:  # noqa
         return K.exc_info(e)
+    if mut:
+        _overwrite(v)
+    return c
 
 
 def _is_seeded_layer(w):
@@ -347,7 +515,7 @@ def run_stack_case(case):
         with K.PatchedDefaultRng("inj"):
             L.seed_globals(case["ga"] + 17)
             trip = L.Tripwire()
-            obs["out_a"] = [[i, _get(A, i)] for i in case["ha"]]
+            obs["out_a"] = [[i, _get(A, i, case.get("mut"))] for i in case["ha"]]
             obs["touched_a"] = trip.touched()
         for k, w in enumerate(seeded):
             obs["layers"][k]["after"] = K.wobj_slots(K.live_wobj(w))
@@ -361,41 +529,43 @@ def run_stack_case(case):
         n_log = len(FR.log)
         L.seed_globals(case["gb"] + 4242)
         trip = L.Tripwire()
-        obs["out_b"] = [[i, _get(B, i)] for i in case["hb"]]
+        obs["out_b"] = [[i, _get(B, i, case.get("mut"))] for i in case["hb"]]
         obs["touched_b"] = trip.touched()
         obs["frames_b"] = len(FR.log) - n_log
     return obs
 
 
-def _list_collate(batch):
-    """no stacking: samples may be PIL images or tensors of different sizes"""
-    return batch
+def _canon_collate(batch, pos=0, mut=False):
+    """runs inside the worker: no stacking (samples may be PIL images or tensors of different sizes), every sample is
+    canonicalised where it was produced and then - mut - overwritten in place"""
+    out = []
+    for sample in batch:
+        out.append([int(sample[pos]), L.canon([x for j, x in enumerate(sample) if j != pos])])
+        if mut:
+            _overwrite(sample)
+    return out
 
 
 def run_loader_case(case):
     import gc
-    import torch
     from functools import partial
     from torch.utils.data import DataLoader
     spec = case["spec"]
     L.seed_globals(case["ga"])
     ds = K.build_stack(spec)
     pos = spec["mode"].split(" ").index("index")
-    n = len(ds)
     obs = {"runs": []}
 
     for k, nw in enumerate([0, 1, 2, 3]):
         L.seed_globals(case["ga"] + 31 * k)
-        g = torch.Generator().manual_seed(case["shuffle"][k])
         kw = dict(worker_init_fn=ds.worker_init_fn) if nw > 0 else {}
-        per_index = {}
+        served = []
         it = None
         try:
-            it = iter(DataLoader(ds, batch_size=case["bs"], num_workers=nw, shuffle=True, generator=g,
-                                 collate_fn=_list_collate, **kw))
+            it = iter(DataLoader(ds, batch_size=case["bs"], num_workers=nw, sampler=list(case["orders"][k]),
+                                 collate_fn=partial(_canon_collate, pos=pos, mut=bool(case.get("mut"))), **kw))
             for batch in it:
-                for sample in batch:
-                    per_index[int(sample[pos])] = L.canon([x for j, x in enumerate(sample) if j != pos])
+                served += batch
         except Exception as e:  # noqa
             obs["runs"].append({"nw": nw, "error": f"{type(e).__name__}: {str(e)[:300]}", "origin": K.exc_info(e)[3]})
             if nw == 0:
@@ -404,15 +574,64 @@ def run_loader_case(case):
         finally:
             del it      # shut the workers down now, not in some later forked child
             gc.collect()
-        obs["runs"].append({"nw": nw, "per_index": [[i, per_index.get(i)] for i in range(n)]})
+        obs["runs"].append({"nw": nw, "served": served})
     return obs
+
+
+def launch_record(item):
+    def noexc(v):
+        return v[:2] + v[3:] if isinstance(v, list) and v and v[0] == "EXC" else v     # (messages may hold addresses)
+    try:
+        L.seed_globals(item["ga"])
+        D = K.build_stack(item["spec"])
+    except Exception as e:  # noqa
+        return {"error": type(e).__name__}
+    return {"samples": [[i, noexc(_get(D, i))] for i in item["idx"]]}
+
+
+def _launch_child():
+    import json
+    import os
+    import sys
+    from . import common
+    common.setup_repo_path()
+    items = json.load(sys.stdin)["items"]
+    sys.stdout.write("\n@@C08-LAUNCH@@" + json.dumps({"hashseed": os.environ.get("PYTHONHASHSEED"),
+                                                      "records": [launch_record(it) for it in items]}) + "\n")
+
+
+def run_launch_case(case):
+    import json
+    import os
+    import subprocess
+    import sys
+    from concurrent.futures import ThreadPoolExecutor
+    from . import common
+
+    def launch(h):
+        env = dict(os.environ)
+        env["PYTHONHASHSEED"] = str(h)
+        p = subprocess.run([sys.executable, "-m", "harness.c08", "--launch-child"], input=json.dumps({"items": case["items"]}),
+                           env=env, cwd=common.VERIF, capture_output=True, text=True, timeout=1500)
+        if p.returncode != 0 or "@@C08-LAUNCH@@" not in p.stdout:
+            return {"crash": (p.stderr or p.stdout)[-600:]}
+        return json.loads(p.stdout.split("@@C08-LAUNCH@@")[1])
+
+    with ThreadPoolExecutor(max_workers=2) as ex:
+        runs = list(ex.map(launch, case["hs"]))
+    here = {"hashseed": os.environ.get("PYTHONHASHSEED"), "records": [launch_record(it) for it in case["items"]]}
+    return {"launches": runs + [here]}
 
 
 def run_impl(case):
     if case.get("kind") == "translator":
         return {"skipped": "translator"}
+    if case.get("kind") == "unlisted":
+        return {"unlisted": case["cls"] in unlisted_seeded_wrappers(T.regenerate())}
     if case.get("kind") == "loader":
         return run_loader_case(case)
+    if case.get("kind") == "launch":
+        return run_launch_case(case)
     return run_stack_case(case)
 
 
@@ -424,21 +643,44 @@ def oracle(case, obs):
         return "harness exception: " + obs["harness_exception"] + obs.get("tb", "")
     if case.get("kind") == "translator":
         return None
+    if case.get("kind") == "unlisted":
+        if obs.get("unlisted"):
+            return (f"sample wrapper class {case['cls']} has seeded per-item code but the harness has no cases for it "
+                    "(harness/c08.py SEEDED_CLASSES / seeded_layer; fail closed)")
+        return None
+    if case.get("kind") == "launch":
+        runs = obs["launches"]
+        for r in runs:
+            if "crash" in r:
+                return "launch of a fresh interpreter failed: " + r["crash"]
+        ref = runs[0]
+        for r in runs[1:]:
+            for k, (a, b) in enumerate(zip(ref["records"], r["records"])):
+                if a != b:
+                    it = case["items"][k]
+                    what = f"{a.get('error')} / {b.get('error')}"
+                    if "samples" in a and "samples" in b:
+                        i, va, vb = next((u[0], u[1], v[1]) for u, v in zip(a["samples"], b["samples"]) if u != v)
+                        what = f"sample {i}: {str(va)[:200]} vs {str(vb)[:200]}"
+                    return (f"{K.spec_sig(it['spec'])} mode='{it['spec']['mode']}': the same seeded stack (global seed {it['ga']}) "
+                            f"serves different samples in two interpreter launches (PYTHONHASHSEED={ref['hashseed']} vs "
+                            f"{r['hashseed']}): {what}  [item {k} of {len(case['items'])}]")
+        return None
     sig = K.spec_sig(case["spec"]) + " mode='" + case["spec"]["mode"] + "'"
     if case.get("kind") == "loader":
-        ref = None
+        seen = {}
         for r in obs["runs"]:
             if "error" in r and r["nw"] == 0 and "transforms" in r.get("origin", ""):
                 return None    # the composition itself raises in-process; not this property's business
             if "error" in r:
                 return f"{sig}: DataLoader(num_workers={r['nw']}) raised {r['error']}"
-            if ref is None:
-                ref = r
-                continue
-            for (i, a), (_, b) in zip(ref["per_index"], r["per_index"]):
-                if a != b:
-                    return (f"{sig}: sample {i} differs between DataLoader(num_workers={ref['nw']}) and "
-                            f"DataLoader(num_workers={r['nw']}), batch_size={case['bs']}: {str(a)[:200]} vs {str(b)[:200]}")
+            for step, (i, v) in enumerate(r["served"]):
+                if i in seen and seen[i][0] != v:
+                    return (f"{sig}: sample {i} differs between DataLoader(num_workers={seen[i][1]}) step {seen[i][2]} and "
+                            f"DataLoader(num_workers={r['nw']}) step {step}, batch_size={case['bs']}, sampler orders "
+                            f"{case['orders']}" + (", samples overwritten in place after collation" if case.get("mut") else "")
+                            + f": {str(seen[i][0])[:200]} vs {str(v)[:200]}")
+                seen.setdefault(i, (v, r["nw"], step))
         return None
     if "construct_error" in obs:
         return f"{sig}: construction failed: {obs['construct_error']}"
@@ -468,7 +710,9 @@ def oracle(case, obs):
             if i in seen and seen[i][0] != v:
                 return (f"{sig}: sample {i} is not a function of (data, config, seed, index): {seen[i][1]} gave "
                         f"{str(seen[i][0])[:200]}, {who} request #{pos} gave {str(v)[:200]} "
-                        f"(orders {case['ha']} / {case['hb']}, global seeds {case['ga']} / {case['gb']})")
+                        f"(orders {case['ha']} / {case['hb']}, global seeds {case['ga']} / {case['gb']}"
+                        + (", the harness overwrote every tensor it was handed in place after each request: a returned "
+                           "tensor aliases state that outlives the request" if case.get("mut") else "") + ")")
             seen.setdefault(i, (v, f"{who} request #{pos}"))
     return None
 
@@ -493,6 +737,11 @@ def coq_case(case, obs):
 
 
 def features(case, obs):
+    if case.get("kind") == "launch":
+        yield "kind=launch"
+        for r in obs.get("launches", []):
+            yield "launch_hashseed=" + str(r.get("hashseed"))
+        return
     if case.get("kind") != "stack":
         yield "kind=" + str(case.get("kind"))
         return
@@ -509,9 +758,26 @@ def features(case, obs):
     if "layers" in obs:
         yield "drew=%s" % any(src for l in obs["layers"] for _, src in l.get("acc", []))
         yield "repeats=%s" % (len(set(case["ha"])) < len(case["ha"]))
+        yield "same_index_in_a_row=%s" % any(a == b for h in (case["ha"], case["hb"]) for a, b in zip(h, h[1:]))
+        yield "overwritten_in_place=%s" % bool(case.get("mut"))
+        yield "seed0=%s" % any(l["seed"] == 0 for l in obs["layers"])
+        names = [l["w"] for l in spec["layers"]]
+        for k, l in enumerate(spec["layers"]):
+            if l.get("seed") is not None and l["w"] != "ShuffleWrapper":
+                above = spec["layers"][k + 1:]
+                if any(x.get("t", {}).get("c") in ("KDImageNorm", "KDImageRangeNorm") for x in above) or \
+                        any(t.get("c") in ("KDImageNorm", "KDImageRangeNorm") for x in above for _, t in x.get("cfg", [])):
+                    yield "inplace_consumer_above=" + l["w"]
+                if any(x["w"] == "KDMultiViewWrapper" for x in above):
+                    yield "multiview_above=" + l["w"]
 
 
 def nontrivial_key(case, obs):
+    if case.get("kind") == "launch":
+        runs = obs.get("launches", [])
+        if len(runs) < 3 or any("crash" in r for r in runs) or len({r["hashseed"] for r in runs}) < 3:
+            return None
+        return ("launch", len(case["items"]), tuple(case["hs"]))
     if case.get("kind") == "loader":
         if any("error" in r for r in obs.get("runs", [])):
             return None
@@ -522,4 +788,11 @@ def nontrivial_key(case, obs):
         return None
     if any(isinstance(v, list) and v and v[0] == "EXC" for _, v in obs["out_a"] + obs["out_b"]):
         return None
-    return (K.spec_sig(case["spec"]), case["spec"]["mode"], len(case["ha"]), len(case["hb"]))
+    return (K.spec_sig(case["spec"]), case["spec"]["mode"], len(case["ha"]), len(case["hb"]), bool(case.get("mut")),
+            tuple(l["seed"] == 0 for l in obs["layers"]))
+
+
+if __name__ == "__main__":
+    import sys as _sys
+    if "--launch-child" in _sys.argv:
+        _launch_child()
